@@ -72,12 +72,24 @@ pub fn build_metainfo(c: &Case, announce: &str) -> (rdest::Metainfo, [u8; 20]) {
     let mut seed = c.content_seed;
     loop {
         let pieces = crate::refmodel::geometry::content(seed, 20);
-        let info = RVal::Dict(vec![
-            (b"length".to_vec(), RVal::Int(c.total_len as i64)),
-            (b"name".to_vec(), RVal::s("f")),
-            (b"piece length".to_vec(), RVal::Int(16384)),
-            (b"pieces".to_vec(), RVal::Str(pieces)),
-        ]);
+        let info = if c.content_seed % 4 == 1 {
+            // directory form: `left` is the sum of the listed files (names with dots in odd places are plain names)
+            let a = c.total_len / 2;
+            let file = |p: &str, l: u64| RVal::Dict(vec![(b"length".to_vec(), RVal::Int(l as i64)), (b"path".to_vec(), RVal::s(p))]);
+            RVal::Dict(vec![
+                (b"files".to_vec(), RVal::List(vec![file("notes..old.txt", a), file("sub/v1...2", c.total_len - a)])),
+                (b"name".to_vec(), RVal::s("f")),
+                (b"piece length".to_vec(), RVal::Int(16384)),
+                (b"pieces".to_vec(), RVal::Str(pieces)),
+            ])
+        } else {
+            RVal::Dict(vec![
+                (b"length".to_vec(), RVal::Int(c.total_len as i64)),
+                (b"name".to_vec(), RVal::s("f")),
+                (b"piece length".to_vec(), RVal::Int(16384)),
+                (b"pieces".to_vec(), RVal::Str(pieces)),
+            ])
+        };
         let hash = sha1(&rb::encode(&info));
         if let Some(b) = c.want_byte {
             let ok = match c.want_pos {
@@ -187,6 +199,7 @@ fn classify(c: &Case, hash: &[u8; 20], o: &mut Outcome) {
     o.class_if(has_query, "announce-with-query");
     o.class_if(c.query.as_ref().map(|q| q.is_empty()).unwrap_or(false), "announce-with-trailing-?");
     o.class_if(c.query.is_none(), "announce-without-query");
+    o.class_if(c.content_seed % 4 == 1, "directory-form-torrent");
     for s in SPECIAL {
         if hash.contains(s) {
             o.class("hash-with-special-byte");
@@ -324,7 +337,7 @@ pub fn check_wire(c: &Case) -> Outcome {
 pub fn def() -> PropDef {
     PropDef {
         id: "C18",
-        rule: "a torrent with generated content (so the info-hash is a uniformly random 20-byte string; two thirds of the cases are steered until the hash contains a chosen special byte such as NUL & % + = space 0xff), an alphanumeric 20-byte peer id, an announce URL with/without port and path, with 0-2 existing query parameters or a trailing '?', total length 0..2^40. Sub url: TrackerClient::create_url (hook) is split at the first '?' and at '&': host/port/path unchanged, every pre-existing parameter still its own parameter, exactly one info_hash whose form-urlencoded decoding (decoder written in the harness) is the 20 hash bytes. Sub wire: the real TrackerClient::run against a loopback HTTP listener that may answer 503 to the first one or two announces (every request, also the repeated ones, is checked); the request line must satisfy the same and carry peer_id, port=6881, left=total length; a valid reply must come back as TrackerCmd::TrackerResp. Sub listen: the unmodified Session::run in a child process inside its own network namespace, with port 6881 free or already taken by another program: a BitTorrent handshake sent to the port named in the announce must be answered with the client's own peer id (a client that refuses to start claims nothing). Non-trivial = hash has a byte that needs escaping or the announce URL has a query; distinct by hash of the case.",
+        rule: "a torrent with generated content (so the info-hash is a uniformly random 20-byte string; two thirds of the cases are steered until the hash contains a chosen special byte such as NUL & % + = space 0xff), an alphanumeric 20-byte peer id, an announce URL with/without port and path, with 0-2 existing query parameters or a trailing '?', total length 0..2^40; a quarter of the torrents are directory-form (two files with dotted names such as `notes..old.txt`), `left` is then the sum of the files. Sub url: TrackerClient::create_url (hook) is split at the first '?' and at '&': host/port/path unchanged, every pre-existing parameter still its own parameter, exactly one info_hash whose form-urlencoded decoding (decoder written in the harness) is the 20 hash bytes. Sub wire: the real TrackerClient::run against a loopback HTTP listener that may answer 503 to the first one or two announces (every request, also the repeated ones, is checked); the request line must satisfy the same and carry peer_id, port=6881, left=total length; a valid reply must come back as TrackerCmd::TrackerResp. Sub listen: the unmodified Session::run in a child process inside its own network namespace, with port 6881 free or already taken by another program: a BitTorrent handshake sent to the port named in the announce must be answered with the client's own peer id (a client that refuses to start claims nothing). Non-trivial = hash has a byte that needs escaping or the announce URL has a query; distinct by hash of the case.",
         assumptions: &["peer ids are alphanumeric (the property's domain; TrackerClient unwraps from_utf8 on the id)"],
         subs: vec![
             crate::e2e::c18_listen_sub(),
@@ -333,14 +346,14 @@ pub fn def() -> PropDef {
                 cases: |t| t.pick(300_000, 4_000_000),
                 run: |ctx| run_proptest(ctx, "url", strategy(false), check_pure),
                 replay: |v| replay_case::<Case>(v, check_pure),
-                min_class: &[("announce-with-query", 0.2139), ("announce-with-trailing-?", 0.0718), ("hash-with-special-byte", 0.4468), ("hash-non-utf8", 0.5)],
+                min_class: &[("announce-with-query", 0.2139), ("announce-with-trailing-?", 0.0718), ("hash-with-special-byte", 0.4468), ("hash-non-utf8", 0.5), ("directory-form-torrent", 0.1)],
             },
             Sub {
                 name: "wire",
                 cases: |t| t.pick(800, 15_000),
                 run: |ctx| run_proptest_cfg(ctx, "wire", strategy(true), check_wire, 40),
                 replay: |v| replay_case::<Case>(v, check_wire),
-                min_class: &[("announce-with-query", 0.2047), ("hash-with-special-byte", 0.4422), ("existing-key-contains-client-parameter-name", 0.1), ("announce-repeated-after-failure", 0.04)],
+                min_class: &[("announce-with-query", 0.2047), ("hash-with-special-byte", 0.4422), ("existing-key-contains-client-parameter-name", 0.1), ("announce-repeated-after-failure", 0.04), ("directory-form-torrent", 0.1)],
             },
         ],
     }
